@@ -31,6 +31,8 @@ type Value struct {
 	IdentitySignature []byte
 }
 
+var ErrInvalidKeyPeerId = errors.New("key-peer id does not match the signed key and peer")
+
 func KeyValueFromProto(proto *spacesyncproto.StoreKeyValue, verify bool) (kv KeyValue, err error) {
 	kv.KeyPeerId = proto.KeyPeerId
 	kv.Value.Value = proto.Value
@@ -53,7 +55,11 @@ func KeyValueFromProto(proto *spacesyncproto.StoreKeyValue, verify bool) (kv Key
 	kv.PeerId = peerId.PeerId()
 	kv.Key = innerValue.Key
 	kv.AclId = innerValue.AclHeadId
-	// TODO: check that key-peerId is equal to key+peerId?
+	// the slot a value is filed under must be the one named inside the signed bytes,
+	// otherwise a valid value could be replayed into (and advertised under) any other slot
+	if proto.KeyPeerId != kv.Key+"-"+kv.PeerId {
+		return kv, ErrInvalidKeyPeerId
+	}
 	if verify {
 		if verify, _ = identity.Verify(proto.Value, proto.IdentitySignature); !verify {
 			return kv, ErrInvalidSignature
